@@ -3346,6 +3346,8 @@ class SetInstance(object):
         elif setdata.is_fully_loaded: return not setdata
         elif setdata: return False
         elif setdata.count is not None: return not setdata.count
+        cache = obj._session_cache_
+        if cache is None or not cache.is_alive: throw_db_session_is_over('read value of', obj, attr)
         entity = attr.entity
         reverse = attr.reverse
         rentity = reverse.entity
@@ -3479,6 +3481,9 @@ class SetInstance(object):
     @cut_traceback
     def create(wrapper, **kwargs):
         attr = wrapper._attr_
+        obj = wrapper._obj_
+        cache = obj._session_cache_
+        if cache is None or not cache.is_alive: throw_db_session_is_over('change collection', obj, attr)
         reverse = attr.reverse
         if reverse.name in kwargs: throw(TypeError,
             'When using %s.%s.create(), %r attribute should not be passed explicitly'
@@ -5452,9 +5457,10 @@ class Entity(object, metaclass=EntityMeta):
         if obj._status_ not in ('created', 'modified', 'marked_to_delete'):
             return
 
-        assert obj._save_pos_ is not None, 'save_pos is None for %s object' % obj._status_
         cache = obj._session_cache_
-        assert cache is not None and cache.is_alive and not cache.saved_objects
+        if cache is None or not cache.is_alive: throw_db_session_is_over('flush object', obj)
+        assert obj._save_pos_ is not None, 'save_pos is None for %s object' % obj._status_
+        assert not cache.saved_objects
         with cache.flush_disabled():
             obj._before_save_() # should be inside flush_disabled to prevent infinite recursion
                                 # TODO: add to documentation that flush is disabled inside before_xxx hooks
